@@ -53,6 +53,7 @@ Step(e) ==
       [] e.op = "SampleRepl" -> SampleReplT(e.args[1], e.args[2])
       [] e.op = "SamplePerm" -> SamplePermT(e.args[1], e.args[2], e.args[3])
       [] e.op = "Concat" -> ConcatT(e.args[1])
+      [] e.op = "ConcatSlices" -> ConcatSlicesT(e.args[1], e.args[2], e.args[3], e.args[4])
       [] e.op = "ToType" -> ToTypeT(e.args[1])
       [] e.op = "ToRna" -> ToMolT("rna")
       [] e.op = "ToDna" -> ToMolT("dna")
